@@ -170,6 +170,39 @@ def run(ctx):
                "(bb%s) appends in between, so this read is clipped against a stale count and one call can return up to twice the limit" % (lens, [o for _, o in stale]))
     top = bool_edges(ri, T, lambda c: c[0] == "bin" and c[1] == "Ge" and E.len_sum(M.noref(c[2])) and M.noref(c[3]) == ("field", ("downcast", ("param", E.params["size_limit"], "size_limit"), "Some"), "0"), True)
     ok = len(top) == 1 and top[0][0] in E.loop and top[0][1] not in E.loop
+    if not top:
+        # the same test written as size_limit.is_some_and(|limit| outvec.len() + errvec.len() >= limit), its result (possibly kept in a
+        # named bool) deciding the exit
+        lim_p = ("param", E.params["size_limit"], "size_limit")
+        for bb_, t_ in ri.calls(E.loop):
+            if M.callee_str(t_["f"]) != "std::option::Option::<T>::is_some_and":
+                continue
+            a_ = [T.operand(x) for x in t_["args"]]
+            if M.noref(a_[0]) != lim_p or not (a_[1][0] == "agg" and a_[1][1][0] == "closure" and a_[1][1][1] in prog.fns):
+                continue
+            cf = prog.fns[a_[1][1][1]]
+            Tc_ = M.Terms(cf)
+            r_ = Tc_.local(0)
+            ups = {u["name"] for u in cf.body.get("upvars", [])}
+            def lens_of_captures(x):
+                x = x[1] if x[0] == "field" and x[2] == "0" else x
+                if not (x[0] == "bin" and x[1] in ("Add", "AddWithOverflow")):
+                    return False
+                got = set()
+                upl = cf.body.get("upvars", [])
+                for y in (x[2], x[3]):
+                    if y[0] == "call" and y[1] == "std::vec::Vec::<T, A>::len":
+                        z = M.peel(y[2][0])
+                        if z[0] == "field" and z[1][0] == "param" and z[1][1] == 1 and z[2].isdigit() and int(z[2]) < len(upl):
+                            got.add(upl[int(z[2])]["name"])
+                return got == {"outvec", "errvec"}
+            cmp_ok = r_[0] == "bin" and r_[1] == "Ge" and lens_of_captures(M.noref(r_[2])) and M.noref(r_[3]) == ("param", 2, cf.local_name(2)) and {"outvec", "errvec"} <= ups
+            # true result -> the loop is left: explore with the call's result assumed true
+            ct = ("call", M.callee_str(t_["f"]), tuple(a_), bb_)
+            ex_t = M.Explore(ri, start=bb_, assume={ct: 1}, tries="ok")
+            stays = [b2 for b2 in ex_t.blocks if b2 in E.loop and E.mp_call and b2 == E.mp_call[0]]
+            ok = cmp_ok and not stays
+            top = [(bb_, None)]
     ctx.ob("R03.2", "loop-top-test", ok, ri.loc(top[0][0] if top else 0), "the loop is left when outvec.len() + errvec.len() >= limit (both vectors, >=)")
     if ok and E.mp_call:
         # the test precedes the poll of the same iteration: the poll is unreachable from the loop head once the test block is removed
@@ -200,12 +233,10 @@ def run(ctx):
     ok = len(rc) == 1 and M.noref(Tc.operand(rc[0][1]["args"][2])) == ("field", ("param", 1, cr.local_name(1)), "size_limit") and M.noref(Tc.operand(rc[0][1]["args"][0])) == ("field", ("param", 1, cr.local_name(1)), "inner")
     ctx.ob("R03.5", "read.passes-self.size_limit", ok, cr.loc(0), "Communicator::read passes self.size_limit (a field load on every call) to self.inner")
     ls = prog.one("communicate::Communicator::limit_size")
-    st = stores_to_field(ls, "size_limit", "communicate::Communicator")
-    ok = len(st) == 1
-    if ok:
-        v = M.Terms(ls).rvalue(st[0][2]["r"])
-        ok = v == ("agg", ("adt", "std::option::Option", "Some"), (("param", 2, ls.local_name(2)),))
-    others = [p for p, fn in prog.fns.items() if p != ls.path and stores_to_field(fn, "size_limit", "communicate::Communicator")]
+    rf = builder_result_fields(ls, "communicate::Communicator")
+    ok = rf is not None and set(rf[0]) == {"size_limit"} and rf[0]["size_limit"] == ("agg", ("adt", "std::option::Option", "Some"), (("param", 2, ls.local_name(2)),))
+    others = [p for p, fn in prog.fns.items() if p != ls.path and (stores_to_field(fn, "size_limit", "communicate::Communicator") or
+              any("size_limit" in (builder_result_fields(fn, "communicate::Communicator") or ({}, None))[0] for _ in [0] if aggregates_of(fn, "communicate::Communicator") and not fn.path.endswith("Communicator::new")))]
     ctx.ob("R03.5", "limit_size.stores-Some(arg)", ok and not others, ls.loc(0), "limit_size stores Some(size); other writers of the field: %s" % others)
     rr = prog.one("communicate::raw::RawCommunicator::read")
     Tr = M.Terms(rr)
